@@ -63,7 +63,11 @@ func c12Compose(t *testing.T, rep *hx.Report, rng *hx.RNG, kern *c12Kernel, perV
 					Sig: map[string]string{"stream": "compose"}, Replay: map[string]any{"filter": flt.token()}})
 				continue
 			}
-			steps := runDrvCase(t, mc.Cfg, mc.Ops)
+			// besides the catalogue: perturbed replies, replies to other flows (another local or target port,
+			// another target), destination-form replies from other hosts — whatever the REAL matcher turns
+			// into a hop, genuine or not, the installed filter must have let through
+			mcWide := genMatcherCase(t, rng, mc.Cfg, map[string]int{"perturbed": 6, "foreign": 4, "genuine": 1, "dest-other": 1, "unsent": 1})
+			steps := append(runDrvCase(t, mc.Cfg, mc.Ops), runDrvCase(t, mcWide.Cfg, mcWide.Ops)...)
 			for _, st := range steps {
 				if st.Op.Send || len(st.Op.Pkt) == 0 {
 					continue
